@@ -6,7 +6,8 @@
    guards, pattern texts), with one hand-written recogniser per regular expression.
    Spec: Sem/CascadeSpec.v -- the statements as text in all their spellings (sline, render), the
    statement of Sem/Tree.v each is (stmt_of), where it may stand (place_ok). *)
-From Ford Require Import Base.Str Sem.Tree Sem.TypeSpec Sem.DeclSpec Sem.Cascade Sem.CascadeSpec Sem.CascadeProofs.
+From Ford Require Import Base.Str Sem.Tree Sem.TreeSpec Sem.TypeSpec Sem.DeclSpec Sem.Cascade Sem.CascadeSpec Sem.CascadeProofs
+     Sem.CascadeTree Sem.CascadeText Sem.CascadeTextProofs.
 
 (* The model was written from these tables: a change of the branch order, of a guard, of a body's
    hasattr / isinstance / constructor calls, or of a pattern text makes these equalities fail. *)
@@ -86,3 +87,32 @@ Theorem C01_dispatch_fixed_program_inside_unit :
   classify (mkctx KModule false true) (s "program p") = Fired (s "PROGRAM_RE") (SUnit KProgram (s "p")).
 Proof. exact program_inside_unit_fixed. Qed.
 Print Assumptions C01_dispatch_fixed_program_inside_unit.
+
+(* From text to tree, in one theorem (C01_dispatch composed with the induction of C01_tree_roundtrip).
+   A spelled program (Sem/CascadeText.v) is a declaration tree of Sem/TreeSpec.v in which every
+   statement is written out in one of its spellings (first lines of units, leaf declarations,
+   statements that declare nothing, CONTAINS, END lines), documentation lines "!!..." behind the
+   declarations.  If the declared structure is well formed (wf_decl: what may be declared where) and
+   every line satisfies the side conditions of C01_dispatch at the place the structure gives it
+   (lines_ok: line_ok, and place_ok for the kind of the enclosing unit, before / after its CONTAINS,
+   outside BLOCK constructs), then the statement loop run on the LINES -- Sem/CascadeTree.parse_text:
+   every line classified by the chain (Sem/Cascade.classify) in the state the parser is in at that
+   moment, the structural parser of Sem/Tree.v acting on the result -- returns exactly the declared
+   tree: each entity once, under its declaring unit, with its kind, names and documentation; no line
+   is outside the model, none is left over. *)
+Theorem C01_text_roundtrip : forall fname units,
+  forallb (wf_decl KFile false) (map erase units) = true ->
+  forallb (lines_ok KFile false) units = true ->
+  parse_text fname (file_text units) = TOk (file_tree fname (map erase units)) [].
+Proof. exact text_roundtrip. Qed.
+Print Assumptions C01_text_roundtrip.
+
+(* non-vacuity: a spelled file with a module (abstract type with bindings and a FINAL without "::",
+   generic interface, contained function ended by a labelled END), a block data unit closed by
+   "end blockdata" and a program satisfies both hypotheses *)
+Theorem C01_text_roundtrip_example :
+  forallb (wf_decl KFile false) (map erase example_text_units) = true /\
+  forallb (lines_ok KFile false) example_text_units = true /\
+  parse_text (s "t.f90") (file_text example_text_units) = TOk (file_tree (s "t.f90") (map erase example_text_units)) [].
+Proof. exact text_roundtrip_example. Qed.
+Print Assumptions C01_text_roundtrip_example.
